@@ -198,6 +198,10 @@ class _P:
             else:
                 break
         x = self.peek()
+        if base[0] == 'ref' and x == '[':
+            # clang prints a reference to an array that came from a substituted template parameter as
+            # "T &[N]" (e.g. "long &[3]"): reference to array, not array of references
+            return ('ref', self.parse_suffixes(base[1]))
         if x == '(':
             # grouping or function params?
             nxt = self.peek(1)
